@@ -23,6 +23,9 @@ still point into the file as it is on disk.
         if T: ...return           ->  if T: ...return
         else: B                       B
       (`return` / `raise` / `continue` / `break` as last statement of the arm).
+  N6  `T = T op <number>`         ->  `T op= <number>`   (T a name or an attribute of a name)
+  N7  `X = []` ; `for v in IT: [if C:] X.append(E)`  ->  `X = [E for v in IT if C]`
+      (loop variables not used outside the loop; X not read by IT, C or E).
   N5  guard helpers: a call statement `_h(a, b)` / `self._h(a)` / a nested
       `_h()` whose callee (private; same function, same class or same module;
       defined once) consists only of `if T: raise E` statements, has plain
@@ -74,12 +77,67 @@ def _norm_block(stmts, stats):
   return _descend(out, stats)
 
 
+def _count_loads(node, name):
+  return sum(1 for n in ast.walk(node) if isinstance(n, ast.Name) and n.id == name and isinstance(n.ctx, ast.Load))
+
+
+def _as_listcomp(init, loop, stats):
+  """N7: `X = []` ; `for v in IT: [if C:] X.append(E)`  ->  `X = [E for v in IT if C]`."""
+  if not (_single_name_target(init) and isinstance(init.value, ast.List) and not init.value.elts):
+    return None
+  if not (isinstance(loop, ast.For) and not loop.orelse and len(loop.body) == 1):
+    return None
+  x = init.targets[0].id
+  inner = loop.body[0]
+  cond = []
+  if isinstance(inner, ast.If) and not inner.orelse and len(inner.body) == 1:
+    cond = [inner.test]
+    inner = inner.body[0]
+  if not (isinstance(inner, ast.Expr) and isinstance(inner.value, ast.Call) and isinstance(inner.value.func, ast.Attribute)
+          and inner.value.func.attr == 'append' and isinstance(inner.value.func.value, ast.Name)
+          and inner.value.func.value.id == x and len(inner.value.args) == 1 and not inner.value.keywords):
+    return None
+  elt = inner.value.args[0]
+  parts = [elt, loop.iter] + cond
+  bad = (ast.NamedExpr, ast.Yield, ast.YieldFrom, ast.Await, ast.Lambda)
+  if any(isinstance(n, bad) for e in parts for n in ast.walk(e)):
+    return None
+  if any(_count_loads(e, x) for e in parts):
+    return None
+  # the loop variables must not be used outside the loop (a comprehension keeps them private)
+  for n in ast.walk(loop.target):
+    if isinstance(n, ast.Name):
+      st_ = stats.get(n.id)
+      inside = _count_loads(loop, n.id)
+      if st_ is None or st_[0] != 1 or st_[1] != inside:
+        return None
+    elif not isinstance(n, (ast.Tuple, ast.List, ast.Store, ast.Load)):
+      return None
+  comp = ast.ListComp(elt=elt, generators=[ast.comprehension(target=loop.target, iter=loop.iter, ifs=cond, is_async=0)])
+  init.value = ast.copy_location(comp, loop)
+  return init
+
+
 def _inline_temps(stmts, stats):
   out = []
   i = 0
   while i < len(stmts):
     st = stmts[i]
     nxt = stmts[i + 1] if i + 1 < len(stmts) else None
+    # N6: `T = T op <number>` -> `T op= <number>`
+    if isinstance(st, ast.Assign) and len(st.targets) == 1 and isinstance(st.value, ast.BinOp) \
+        and isinstance(st.value.right, ast.Constant) and isinstance(st.value.right.value, (int, float)) \
+        and not isinstance(st.value.right.value, bool) \
+        and (isinstance(st.targets[0], ast.Name) or (isinstance(st.targets[0], ast.Attribute)
+                                                     and isinstance(st.targets[0].value, ast.Name))) \
+        and ast.unparse(st.value.left) == ast.unparse(st.targets[0]):
+      st = ast.copy_location(ast.AugAssign(target=st.targets[0], op=st.value.op, value=st.value.right), st)
+    if nxt is not None:
+      merged = _as_listcomp(st, nxt, stats)
+      if merged is not None:
+        out.append(merged)
+        i += 2
+        continue
     if nxt is not None and _single_name_target(st):
       x = st.targets[0].id
       if stats.get(x) == [1, 1]:
